@@ -155,7 +155,8 @@ impl C16 {
             Err(_) => return,
         };
         let tree = (!with_tree).then(|| w.g(src).export_tree().into_owned());
-        let ext_mode = !can_sign && self.next_jitter % 3 == 0;
+        // (also the observer that may sign: its own proposals are the library's to remember)
+        let ext_mode = self.next_jitter % 3 == 0;
         let client = self.build_client(w, prov, j, can_sign, !ext_mode);
         w.log(json!({"op":"observer_joins","jitter":jc,"epoch":epoch,"with_tree":with_tree,"external_proposal_cache":ext_mode}));
         match guarded(|| client.observe_group(gi, tree, None)) {
